@@ -57,14 +57,14 @@ def features(text, lines):
     return f, ninst
 
 
-def compare_with_lines(ev, text, lines):
+def compare_with_lines(ev, text, lines, config=None):
     """Shared by C08 and C16: stream and parse_file_lines versus the independent line classifier."""
     expected = []
     for ln in lines:
         c = classify_line(ln)
         if c[0] == "inst":
             expected.append((c[1], c[2]))
-    r = jasm_io.stream_of(text)
+    r = jasm_io.stream_of(text, config=config)
     ev.subcases += 1
     if r[0] == "inconclusive":
         ev.inconclusive += 1
@@ -109,6 +109,13 @@ def evaluate(case):
         return ev
     lines = text.split("\n")
     compare_with_lines(ev, text, lines)
+    if not ev.deviations:
+        # the same with the address-range observer installed (it may rewrite operands of call/jmp, never add or drop records)
+        before = len(ev.deviations)
+        compare_with_lines(ev, text, lines, config={"valid_addr_range": {"min": "0x1000", "max": "0x2000"}})
+        for d in ev.deviations[before:]:
+            d["with_config"] = "valid_addr_range"
+        ev.tags.append("also-with-addr-range-observer")
     f, ninst = features(text, lines)
     ev.tags += sorted(f)
     ev.nontrivial = len(f) >= 3
